@@ -91,6 +91,18 @@ CLAIMED = {
              "into every composite child and then orders (found and repaired F-SORT). Satisfaction logic and execution are not decided.",
         note=TRUST + "Parametricity is used as a meta-theorem; satisfiability (and/or/threshold selection) is runtime behaviour.",
         design="3/C16"),
+    "C17": dict(
+        technique="writer/reader table agreement: format templates and string constants from MIR vs logos token table and parser arms; provenance of names and literals; recursion review",
+        text="Decides that the renderer's alphabet is contained in the reader's: each combinator's rendered keyword and payload form "
+             "(read from format_args templates and Display impls in MIR) is the token parse_expr maps back to that combinator; literal "
+             "CMRs are carried into the assertion built from them; every token the type printer can emit (1, 2, every 2^k it can print, "
+             "+, *, parentheses, postfix ? at operand level) has a rule in parse_type*; generated names lex as one symbol, are checked "
+             "against the program's own names, and every referenced node is printed; str slices cannot split a character; parser "
+             "recursion is reviewed. Found eight genuine defects (all repaired, see known_findings.json) and the input-depth recursions "
+             "of the recursive-descent parser (known findings). Equality of types/encoding after re-parsing is not decided.",
+        note=TRUST + "The logos attributes are read from the source text of enum Token (rustc drops derive-helper attributes); assumes "
+             "the generated lexer implements them.",
+        design="3/C17"),
 }
 
 NOT_APPLICABLE = {
